@@ -2532,7 +2532,9 @@ class SourceFinder(object):
             input_table = load_table(catalogue)
             input_sources = np.array(table_to_source_list(input_table))
         else:
-            input_sources = np.array(catalogue)
+            # work on copies: the sources are resized in place further down
+            # and the catalogue belongs to the caller
+            input_sources = np.array(copy.deepcopy(list(catalogue)))
 
         if len(input_sources) < 1:
             self.log.debug("No input sources for priorized fitting")
